@@ -69,7 +69,10 @@ TRUSTED_BASE = [
     "partial); re-confirmed on every run by corpus/C17/09-anc-obj2bytes-dtype.json",
 ]
 ASSUMPTIONS = [
-    "no object-dtype arrays among the arguments of memoised functions",
+    "no object-dtype arrays among the arguments of memoised functions; array-likes "
+    "that are not ndarrays (h5py datasets, feature objects) denote np.asarray of them",
+    "per-object caches: mean() and copy=False requests are outside the model (RdNop; "
+    "compared with a plain ndarray only); max()/min() are modelled",
     "distinct memoised functions differ in (__name__, __doc__, co_filename)",
     "0 <= cached.MAX_SIZE",
     "hierarchy children are read after rejuvenate() (staleness w.r.t. parent "
@@ -727,6 +730,15 @@ def gen_cache_case(rng, thorough=False, big=False):
         r = rng.random()
         if r < 0.07 and nouts:
             ops.append({"mut": rng.randint(max(0, nouts - 30), nouts - 1)})
+            continue
+        if r < 0.1 and r >= 0.085:
+            # all members of a family of ambiguous argument lists, one function
+            f = rng.choice(["probe_a", "probe_b", "probe_d"])
+            fam = list(rng.choice(AMBIGUOUS))
+            rng.shuffle(fam)
+            for member in fam:
+                ops.append({"f": f, "pos": member, "kw": {}})
+                nouts += 1
             continue
         if r < 0.085 and not big:
             if rng.random() < 0.4:
@@ -1572,7 +1584,8 @@ def ufunc_tie_compare(res, model):
         okw, vw = want
         okg, vg = got
         same = (okw == okg) and ((not okw and vw == vg) or (
-            okw and (vw == vg or abs(vw - vg) <= 1e-12 * max(1.0, abs(vw)))))
+            okw and (vw == vg or (vw != vw and vg != vg)
+                     or abs(vw - vg) <= 1e-12 * max(1.0, abs(vw)))))
         if KS[k] != fn or not same:
             return ("summary request %d (%s): implementation %s, the model says it reflects "
                     "data version %d: %s" % (j, fn, vg, v, vw))
@@ -2354,7 +2367,7 @@ def build_obj_world(run, scratch, tag):
                     dtype=np.uint64)
     basin_ok = True
     path = bpath = None
-    strip = rng.random() < 0.5
+    strip = tag.endswith("_0") or (not tag.endswith("_1") and rng.random() < 0.5)
     try:
         path, bpath = _write_basin_pair(scratch, tag, dict(spec["features"]), bmap,
                                         spec["meta"])
@@ -2427,6 +2440,8 @@ def build_obj_world(run, scratch, tag):
     world.append(("ancillary", "index", 2, lambda: open_anc("index")))
     if basin_ok:
         world.append(("basin-nd", "image", 0, open_basin_nd))
+    for k in range(len(world)):
+        world[k] = world[k] + (strip,)
     return world
 
 
@@ -2663,7 +2678,7 @@ def run_obj_checks(run, nworlds, kinds=None):
     results = []
     for w in range(nworlds):
         world = build_obj_world(run, run.scratch, "w%d_%d" % (os.getpid(), w))
-        for kind, feat, nat, opener in world:
+        for kind, feat, nat, opener, strip in world:
             if kinds and kind not in kinds:
                 continue
             try:
@@ -2683,7 +2698,7 @@ def run_obj_checks(run, nworlds, kinds=None):
                 else:
                     ops = gen_obj_ops(run.rng, len(expd))
                     case = dict(kind="obj", obj=kind, feat=feat, data8=expd, nat=nat,
-                                ops=ops)
+                                ops=ops, strip=bool(strip))
                     res = run_obj_ops(obj, expd, ops, nat)
                     res["render"] = obj_render(kind, nat, expd, res["rops"])
                 results.append((case, res))
@@ -2737,6 +2752,12 @@ def replay_obj_case(case, scratch):
         else:
             path = os.path.join(scratch, tag + ".rtdc")
             gen.write_spec(path, dict(n=n, features={"deform": data}, meta=meta))
+            if case.get("strip"):
+                import h5py
+                with h5py.File(path, "a") as h5:
+                    for a in ("min", "max", "mean"):
+                        if a in h5["events"]["deform"].attrs:
+                            del h5["events"]["deform"].attrs[a]
             ds = dclab.new_dataset(path)
             objs.append(ds)
             if kind == "hdf5":
